@@ -150,6 +150,13 @@ def one_session(rnd, tid, root, df=None, kinds=None):
     if cs is None:
         info['nothing_discovered'] = True
         return events[:1], info
+    if rex:
+        try:
+            fd = cs.to_dict()['fields']
+            info['rexes'] = {f: list(v.get('rex', [])) for f, v in fd.items() if 'rex' in v}
+            info['strings'] = {f: [x for x in df[f].dropna().unique().tolist() if isinstance(x, str)] for f in info['rexes']}
+        except Exception:
+            pass
     try:
         if path == 'dict':
             src = cs.to_dict()
